@@ -246,6 +246,14 @@ def oracle(err, req, evs, status):
         d = designated(err, x[0], int(x[1:]))
         ehs = [e for e in seg if e.startswith("eh ")]
         want = ["eh x%d" % d[1]] if d[0] == "x" else []
+        if d[0] == "x" and n + 1 < len(fails) and not ehs:
+            y = evs[fails[n + 1]].split()[1]
+            if y[0] == "c" and int(y[1:]) in dep.get("x%d" % d[1], set()):
+                # what the handler itself needs failed: the handler cannot run; the inner error is the one
+                # that is handled and observed (out of the property's class: recorded, not judged)
+                if any(e.startswith("observer ") for e in seg):
+                    return "observers ran for `%s` although its handler could not be built" % x
+                continue
         if ehs != want:
             return "after `fail %s` the error handlers that ran are %s, expected %s" % (x, ehs, want)
         last_status = stat[d[1]] if d[0] == "x" else 500
